@@ -289,12 +289,22 @@ def _explore(prefix):
         vs = h.check(hist)
         viols.extend(vs)
         maxlen = max(maxlen, len(h.appended))
-        if len(hist) < _DEPTH and not vs:
+        if len(hist) < _depth_for(cfg) and not vs:
             for ev in reversed(evs):
                 stack.append(hist + [ev])
         else:
             n_hist += 1
     return {"viols": viols, "transitions": n_trans, "histories": n_hist}
+
+
+DEEP = {("json", 2, ()), ("json", 2, tuple(RULES)), ("json", 1, ()), ("sqlite", 0, ())}
+
+
+def _depth_for(cfg):
+    """Thorough: the four main configurations go one operation deeper than the rest."""
+    if _THOROUGH and tuple(cfg) not in DEEP:
+        return _DEPTH - 1
+    return _DEPTH
 
 
 def _H_cfg():
@@ -315,7 +325,7 @@ def run(ctx):
     hists = sum(r["histories"] for r in res)
     for r in res:
         ctx.add_violations(r["viols"])
-    ctx.log(f"sequential part: {len(cfgs)} configurations, {trans} transitions, {hists} maximal histories, depth {_DEPTH}")
+    ctx.log(f"sequential part: {len(cfgs)} configurations, {trans} transitions, {hists} maximal histories, depth {_DEPTH} (thorough: {_DEPTH} for the 4 main configurations, {_DEPTH - 1} for the others)")
     sched = None
     try:
         from . import c12_sched
